@@ -30,7 +30,12 @@ EXPLANATION = (
     "NextInverse_attribute() in getInverseAttrs is the condition of a loop whose body inserts the attribute; one such loop runs "
     "inside the loop over the supertype iterator and one over the entity's own list. (R6) init() calls checkAnInvAttr in a loop "
     "over all of _iaList without early exit; checkAnInvAttr adds the inverted entity and everything its subtype iterator yields. "
-    "(R7) both branches of refersToCurrentInst compare with _inst. "
+    "(R7) both branches of refersToCurrentInst compare with _inst. (R4b) the resolver is constructed under the same conditions as "
+    "the cache insert of loadInstance, for the instance that is cached. (R9) clients of the recursive super/subtype iterators take elements either only through "
+    "current()/* or only through the value returned by next() (which is the element just left), never both on one iterator. "
+    "(R8) a parameter whose member is created on demand "
+    "(`if( !p.f ) p.f = new ..`) is a reference or pointer, so that the aggregate created for the first referrer is the one "
+    "the next referrer is added to. "
     "Not decided: that the resulting sets equal the true referrers for every population (needs the run-time population), "
     "re-entrant loads of an instance that is still being read (reference cycles create a second object).")
 
@@ -174,6 +179,97 @@ def r4_once(prog, res):
                         "inverse attributes are resolved once, when the instance is first loaded (after the cache look-up missed)" if okc else
                         "%s resolves inverse attributes outside the cache-miss path of loadInstance: referrers are added again on a later load" % f.name)
     res.floor("R4", "constructions of the resolver", n, 1)
+    # ... and for every instance that enters the cache: the early exit above hands out cached instances without resolving,
+    # so an instance that is cached unresolved (e.g. because it was loaded as a dependency) keeps empty inverse attributes
+    f = prog.one("lazyInstMgr::loadInstance")
+    if f is None:
+        res.broke("anchor vanished: lazyInstMgr::loadInstance")
+        return
+    ins = [c for c in f.calls() if c.get("ch") and (c.get("fn") or "").split("::")[-1] == "insert" and
+           strip(c["ch"][0]) is not None and strip(c["ch"][0]).get("q") == "lazyInstMgr::_instancesLoaded"]
+    cons = [c for c in f.walk() if c["k"] == "Construct" and (c.get("fn") or "") == "lazyRefs::lazyRefs" and (c.get("np") or 0) >= 2]
+    if not ins:
+        res.broke("R4: loadInstance no longer enters the instance into _instancesLoaded")
+        return
+    def mem(n, q=None):
+        n = strip(n)
+        return n is not None and n["k"] == "Member" and (n.get("q") or "").startswith("lazyInstMgr::") and (q is None or n.get("q") == q)
+
+    # the pending list: pushed under the same conditions as the cache insert, with the same object
+    for i_, c in enumerate(ins):
+        conds_i = [a["i"] for a in f.ancestors(c) if a["k"] == "If"]
+        obj = strip(call_args(c)[1]) if len(call_args(c)) >= 2 else None
+        key = "R4|src/cllazyfile/lazyInstMgr.cc|lazyInstMgr::loadInstance|cache-insert#%d" % i_
+        pushes = [p_ for p_ in f.calls() if p_.get("ch") and (p_.get("fn") or "").split("::")[-1] == "push_back" and mem(p_["ch"][0]) and
+                  [a["i"] for a in f.ancestors(p_) if a["k"] == "If"] == conds_i and obj is not None and call_args(p_) and
+                  strip(call_args(p_)[0]) is not None and strip(call_args(p_)[0]).get("d") == obj.get("d")]
+        direct = [r for r in cons if [a["i"] for a in f.ancestors(r) if a["k"] == "If"] == conds_i]
+        if not pushes:
+            why = "the resolver runs only under a further condition" if cons and not direct else "no resolver / pending entry for the cached instance"
+            if direct:
+                why = ("the resolver runs directly after the cache insert, also while a referrer is half-read (its attributes being "
+                       "read are what led here): that referrer does not show its reference yet and is missed for good")
+            res.add("R4.resolved_when_cached", key, f.where(c), False,
+                    "an instance can enter the cache without its inverse attributes being resolved correctly (%s); every later loadInstance() "
+                    "returns it from the cache as it is" % why)
+            continue
+        pend = strip(pushes[0]["ch"][0])["q"]
+        # the drain loop
+        loops = [w for w in f.walk() if w["k"] == "While" and any(y["k"] == "Call" and (y.get("fn") or "").split("::")[-1] == "empty" and y.get("ch")
+                 and mem(y["ch"][0], pend) for y in walk(w["ch"][0])) and strip(w["ch"][0]) is not None and strip(w["ch"][0])["k"] == "Unary"]
+        ok = False
+        why = "the pending list %s is never drained" % pend.split("::")[-1]
+        for w in loops:
+            takes = [v for v in walk(w["ch"][1]) if v["k"] == "Var" and v.get("ch") and v["ch"][0] is not None and
+                     any(y["k"] == "Call" and (y.get("fn") or "").split("::")[-1] in ("back", "front") and y.get("ch") and mem(y["ch"][0], pend) for y in walk(v["ch"][0]))]
+            pops = [y for y in walk(w["ch"][1]) if y["k"] == "Call" and (y.get("fn") or "").split("::")[-1] in ("pop_back", "pop_front", "erase") and y.get("ch") and mem(y["ch"][0], pend)]
+            rs = [r for r in cons if any(y is r for y in walk(w["ch"][1]))]
+            if not takes or not pops or not rs:
+                why = "the drain loop does not take an entry, remove it and resolve it"
+                continue
+            a_r = call_args(rs[0])
+            if len(a_r) < 2 or strip(a_r[1]) is None or strip(a_r[1]).get("d") != takes[0]["d"]:
+                why = "the resolver in the drain loop is not constructed for the entry taken from the list"
+                continue
+            guards = [a for a in f.ancestors(w) if a["k"] == "If"]
+            depth_guard = [g for g in guards if strip(g["ch"][0]) is not None and strip(g["ch"][0])["k"] == "Binary" and strip(g["ch"][0]).get("op") == "==" and
+                           mem(strip(g["ch"][0])["ch"][0]) and (strip(strip(g["ch"][0])["ch"][1]) or {}).get("val") == 0]
+            other = [g for g in guards if not any(g is d for d in depth_guard) and g["i"] not in conds_i]
+            if other:
+                why = "the drain loop runs only under the further condition `%s`" % expr_str(strip(other[0]["ch"][0]))
+                continue
+            if not depth_guard:
+                why = "the drain loop is not restricted to the moment when no instance is half-read"
+                continue
+            dq = strip(strip(depth_guard[0]["ch"][0])["ch"][0])["q"]
+            if not f.cfg.postdominates(f.first_pos(depth_guard[0]["ch"][0]), f.cfg.locate(pushes[0])):
+                why = "a path from the cache insert to the return does not reach the drain loop"
+                continue
+            # the depth counter brackets every attribute read and nothing else writes it
+            reads = [y for y in f.calls() if (y.get("fn") or "").endswith("getRealInstance")]
+            incs = [y for y in f.walk() if y["k"] == "Unary" and y.get("op") in ("post++", "pre++") and mem(y["ch"][0], dq)]
+            decs = [y for y in f.walk() if y["k"] == "Unary" and y.get("op") in ("post--", "pre--") and mem(y["ch"][0], dq)]
+            br = bool(reads) and all(any(f.cfg.dominates(f.cfg.locate(i), f.cfg.locate(r)) and not f.cfg.reaches(f.cfg.locate(i), f.cfg.locate(r), lambda e: any(z is d for d in decs for z in walk(e))) is False for i in incs) and
+                                     any(f.cfg.postdominates(f.cfg.locate(d), f.cfg.locate(r)) for d in decs) for r in reads) and len(incs) == len(decs) == len(reads)
+            others = []
+            for g in prog.all_functions():
+                for y in g.walk_all():
+                    if y["k"] in ("Assign", "CompoundAssign") and mem(y["ch"][0], dq) and not (g.name == "lazyInstMgr::lazyInstMgr" and (strip(y["ch"][1]) or {}).get("val") == 0):
+                        others.append(g.name)
+                    if y["k"] == "Unary" and ("++" in (y.get("op") or "") or "--" in (y.get("op") or "")) and mem(y["ch"][0], dq) and g.key != f.key:
+                        others.append(g.name)
+            if not br or others:
+                why = "the counter %s does not bracket exactly the attribute reads (++ before / -- after each getRealInstance; other writers: %s)" % (dq.split("::")[-1], sorted(set(others)))
+                continue
+            # no resolver outside the drain loop
+            if any(not any(y is r for y in walk(w["ch"][1])) for r in cons):
+                why = "a resolver is also constructed outside the drain loop"
+                continue
+            ok = True
+        res.add("R4.resolved_when_cached", key, f.where(c), ok,
+                "every cached instance is queued in %s under the same conditions, and the queue is drained (entry taken, removed, resolved) on every "
+                "path before loadInstance returns to a caller that is not itself reading attributes (%s brackets the attribute reads)" % (pend.split("::")[-1], "the depth counter") if ok else
+                "an instance can enter the cache without its inverse attributes being resolved correctly (%s)" % why)
 
 
 def r5_r6_collect(prog, res):
@@ -247,7 +343,104 @@ def r7_identity(prog, res):
             "the verdict returned is the identity test's result" if ok else "refersToCurrentInst returns something else than its identity test")
 
 
+def r8_accumulator_shared(prog, res):
+    """`if( !p.f ) { p.f = new ..; }` on a parameter states the belief that an earlier call may already have created the object.
+    That only holds when the parameter is the caller's object (reference / pointer): with a by-value parameter every call
+    starts from the caller's unchanged copy, creates a new object and, here, replaces the aggregate that held the earlier
+    referrers."""
+    n = 0
+    for f in prog.all_functions():
+        if f.component not in ("cllazyfile",) or not f.params:
+            continue
+        pd = {p_["d"]: p_ for p_ in f.params}
+        for x in f.walk():
+            if x["k"] != "If":
+                continue
+            c = strip(x["ch"][0])
+            if c is None or c["k"] != "Unary" or c.get("op") != "!":
+                continue
+            t = strip(c["ch"][0])
+            base = t
+            while base is not None and base["k"] == "Member" and base.get("ch") and not base.get("arrow"):
+                base = strip(base["ch"][0])
+            if t is None or t["k"] != "Member" or base is None or base["k"] != "Ref" or base.get("d") not in pd:
+                continue
+            news = [y for y in walk(x["ch"][1]) if y["k"] == "Assign" and strip(y["ch"][1]) is not None and strip(y["ch"][1])["k"] == "New"
+                    and expr_str(strip(y["ch"][0])) == expr_str(t)]
+            if not news:
+                continue
+            n += 1
+            ty = f.tyname(pd[base["d"]]["t"]) if isinstance(pd[base["d"]].get("t"), int) else ""
+            ok = ty.rstrip().endswith("&") or ty.rstrip().endswith("*")
+            res.add("R8.accumulator_is_shared", "R8|%s|%s|%s" % (f.relfile(), f.name, base["n"]), f.where(x), ok,
+                    "`%s` is the caller's object (%s): what one call creates is seen by the next" % (base["n"], ty) if ok else
+                    "`%s` is passed by value (%s) but its member is created on demand (`if( !%s ) .. = new`): every call starts from the "
+                    "caller's unchanged copy, so each referrer gets a new aggregate that replaces the previous one" % (base["n"], ty, expr_str(t)))
+    res.floor("R8.accumulator_is_shared", "create-on-demand members of a parameter in the lazy loader", n, 1)
+
+
+def r9_iterator_protocol(prog, res):
+    """recursiveEntDescripIterator::next() returns the element it *leaves* (the old front) and then advances; current() / * / ->
+    give the front.  A client that looks at current() and also uses the value returned by next() on the same iterator sees the
+    first element twice and never the last one.  Per iterator object (member or local): the value of next() / ++ is either
+    always discarded or the only way elements are taken."""
+    it_fn = prog.fn("recursiveEntDescripIterator::next")
+    if not it_fn:
+        res.broke("anchor vanished: recursiveEntDescripIterator::next")
+        return
+    # confirm the protocol from the body: the returned value is read from the front before the pop
+    nx = it_fn[0]
+    pops = [c for c in nx.calls() if (c.get("fn") or "").split("::")[-1] == "pop_front"]
+    fronts = [c for c in nx.calls() if (c.get("fn") or "").split("::")[-1] == "front"]
+    proto = bool(pops) and bool(fronts) and nx.cfg is not None and nx.cfg.dominates(nx.cfg.locate(fronts[0]), nx.cfg.locate(pops[0]))
+    res.add("R9.next_returns_the_element_left", "R9|include/clstepcore/SubSuperIterators.h|recursiveEntDescripIterator::next|protocol", nx.where(), proto,
+            "next() returns the front it removes (read before pop_front)" if proto else
+            "recursiveEntDescripIterator::next() no longer returns the element it leaves: the clients' protocol rule below has to be re-derived")
+    uses = {}
+    for f in prog.all_functions():
+        if f.component not in ("clstepcore", "cllazyfile", "cldai", "cleditor"):
+            continue
+        for c in f.calls():
+            m = (c.get("fn") or "")
+            if not m.startswith("recursiveEntDescripIterator::") or not c.get("ch"):
+                continue
+            meth = m.split("::")[-1]
+            recv = strip(c["ch"][0])
+            while recv is not None and recv["k"] == "Cast":
+                recv = strip(recv["ch"][0])
+            if recv is None:
+                continue
+            obj = recv.get("q") or ("%s|%s" % (f.key, recv.get("d")))
+            par = f.parent.get(c["i"])
+            # is the call's value used?  (statement-level call = discarded)
+            used = par is not None and par["k"] not in ("Compound", "For") and not (par["k"] in ("While", "If", "Do") )
+            if par is not None and par["k"] == "For":
+                used = False       # increment slot of a for loop
+            kind = None
+            if meth in ("next", "operator++"):
+                kind = "next-value" if used else "advance"
+            elif meth in ("current", "operator*", "operator->"):
+                kind = "current"
+            if kind:
+                uses.setdefault(obj, []).append((kind, f, c))
+    n = 0
+    for obj, lst in sorted(uses.items()):
+        kinds = {k for k, _, _ in lst}
+        if "next-value" not in kinds and "current" not in kinds:
+            continue
+        n += 1
+        bad = "next-value" in kinds and "current" in kinds
+        f0, c0 = [(f, c) for k, f, c in lst if k == ("next-value" if bad else list(kinds)[0])][0]
+        res.add("R9.iterator_protocol_consistent", "R9|%s" % obj.split("(")[0], f0.where(c0), not bad,
+                "elements are taken %s" % ("through current() only (next() just advances)" if "current" in kinds else "through the value of next() only") if not bad else
+                "the same iterator is read through current() and through the value returned by next() (which is the element just left): "
+                "the first supertype is visited twice and the last one never, so its inverse attributes are missing from the instance")
+    res.floor("R9.iterator_protocol_consistent", "iterator objects whose elements are taken", n, 3)
+
+
 def run(prog, res, tier):
+    r9_iterator_protocol(prog, res)
+    r8_accumulator_shared(prog, res)
     r1_fresh(prog, res)
     r2_guarded(prog, res)
     r3_sentinel(prog, res)
